@@ -524,3 +524,74 @@ def run_dtypekw(ctx) -> RuleResult:
     result.info["dtype_keyword_sites"] = n
     result.floor = 1
     return result
+
+
+CHAR_CLASSES = {"isdigit", "isnumeric", "isdecimal", "isalpha", "isalnum", "isspace", "isprintable", "isidentifier",
+                "isascii", "islower", "isupper"}
+
+
+def run_keyclass(ctx, _only=None) -> RuleResult:
+    """Storage keys are arbitrary code points (exponent + offset, one character per indeterminate): any Unicode
+    character class contains real keys (superscript and Arabic-Indic digits are 'digits', many code points are
+    'alphabetic' or 'space'), so a character-class predicate on key strings mistakes terms for something else."""
+    from .common import expand_in_context
+
+    result = RuleResult(
+        "R-KEYCLASS",
+        "no character-class predicate (str.isdigit / isalpha / ..., numpy.char.is*) is applied to storage keys or field "
+        "names: keys are arbitrary code points, every Unicode class contains real exponent encodings",
+    )
+    n = 0
+    for module, qual, func in ctx.repo.all_functions():
+        if module.is_pyx or (_only is not None and module.relpath != _only):
+            continue
+        text = U(func)
+        if not any(c + "(" in text for c in CHAR_CLASSES):
+            continue
+        seen = set()
+        for path in ctx.paths_auto(module, func):
+            for step in path:
+                for raw in step_exprs(step):
+                    for call in calls_in(raw):
+                        recv = None
+                        if isinstance(call.func, ast.Attribute) and call.func.attr in CHAR_CLASSES:
+                            name = ctx.dotted(module, call.func) or ""
+                            if name.startswith("numpy.") and call.args:
+                                recv = call.args[0]
+                            elif not name.startswith("numpy."):
+                                recv = call.func.value
+                        if recv is None:
+                            continue
+                        rtext = U(strip_tags(expand_in_context(step, raw, recv)))
+                        key = (id(call), rtext)
+                        if key in seen:
+                            continue
+                        seen.add(key)
+                        n += 1
+                        on_keys = ".keys" in rtext or "dtype.names" in rtext
+                        result.ob(f"{module.name}.{qual}: character-class predicate is not applied to storage keys", not on_keys,
+                                  module.loc(step.orig), rtext[:80])
+                        if on_keys:
+                            result.add(Finding(
+                                "R-KEYCLASS", module, qual, call,
+                                f"'{U(call)[:70]}' classifies storage keys ({rtext[:60]}) by a Unicode character class: keys are the "
+                                f"code points exponent + KEY_OFFSET, so real terms fall into the class (e.g. exponents 119, 120, 126 "
+                                f"are the superscript digits, 1573.. the Arabic-Indic digits) and are treated as something else - the "
+                                f"term silently disappears",
+                                derivation=describe_path(path), construct=f"{qual}: character class on keys"))
+    if not getattr(ctx, "_is_probe", False):
+        from ..ctx import Ctx
+        from ..repo import Repo
+
+        overrides = dict(ctx.repo.overrides)
+        overrides["numpoly/_positive_keyclass.py"] = (
+            "def f(poly):\n    return [key for key in poly.values.dtype.names if not key.isdigit()]\n")
+        pctx = Ctx(Repo(root=ctx.repo.root, overrides=overrides))
+        pctx._is_probe = True
+        sub = run_keyclass(pctx, _only="numpoly/_positive_keyclass.py")
+        if not sub.findings:
+            raise AnalysisError("R-KEYCLASS: built-in positive example not recognised")
+    result.ob("built-in positive example (isdigit on dtype.names) is reported", True, "<positive example>", "")
+    result.info["character_class_calls"] = n
+    result.floor = 1
+    return result
